@@ -26,9 +26,13 @@ use std::sync::Arc;
 struct SpinGauss {
     inner: Gaussian2D<f64>,
     spin: u32,
+    sleep_us: u32,
 }
 impl Target<f64, f64> for SpinGauss {
     fn unnorm_logp(&self, position: &[f64]) -> f64 {
+        if self.sleep_us > 0 {
+            std::thread::sleep(std::time::Duration::from_micros(self.sleep_us as u64));
+        }
         if self.spin > 0 {
             let h = position[0].to_bits().wrapping_mul(0x9E37_79B9_7F4A_7C15) >> 60;
             let mut x = 0u64;
@@ -48,11 +52,15 @@ impl Target<f64, f64> for SpinGauss {
 struct SeededConditional {
     rng: SmallRng,
     spin: u32,
+    sleep_us: u32,
 }
 impl Conditional<f64> for SeededConditional {
     fn sample(&mut self, index: usize, given: &[f64]) -> f64 {
         if self.spin > 0 && index == 0 {
             std::thread::yield_now();
+        }
+        if self.sleep_us > 0 && index == 0 {
+            std::thread::sleep(std::time::Duration::from_micros(self.sleep_us as u64));
         }
         let o: f64 = given.iter().enumerate().filter(|(i, _)| *i != index).map(|(_, v)| *v).sum();
         0.4 * o + self.rng.random::<f64>()
@@ -75,6 +83,13 @@ pub struct Case {
     pub spin: u32,
     pub proposal_seeded: bool,
     pub f32: bool,
+    /// HMC / NUTS: 0 = the 2-d Gaussian, otherwise the dimension of a wide target
+    #[serde(default)]
+    pub wide: usize,
+    /// > 0: the progress-reporting run is paced to last about this many milliseconds per chain
+    /// (the library's progress code has once-per-second and 250 ms timers)
+    #[serde(default)]
+    pub pace_ms: u32,
 }
 
 fn strategy() -> BoxedStrategy<Case> {
@@ -91,13 +106,15 @@ fn strategy() -> BoxedStrategy<Case> {
         proptest::bool::weighted(0.15),
         prop_oneof![Just(0u32), 1u32..300],
         any::<bool>(),
-        any::<bool>(),
+        (any::<bool>(), prop_oneof![10 => Just(0usize), 1 => 256usize..400, 1 => Just(1024usize)]),
     )
-        .prop_map(|(kind, seed, other_seed, chains, n_collect, n_discard, pools, companions, progress, spin, proposal_seeded, f32)| Case {
+        .prop_map(|(kind, seed, other_seed, chains, n_collect, n_discard, pools, companions, progress, spin, proposal_seeded, (f32, wide))| Case {
+            wide: if kind >= 2 { wide } else { 0 },
+            pace_ms: 0,
+            chains: if kind >= 2 && wide > 0 { chains.min(4) } else { chains },
             kind,
             seed,
             other_seed,
-            chains,
             n_collect,
             n_discard,
             pools,
@@ -107,6 +124,39 @@ fn strategy() -> BoxedStrategy<Case> {
             proposal_seeded,
             f32,
         }))
+}
+
+/// runs that outlast the library's progress timers: run_progress must still return run's draws
+fn paced_strategy() -> BoxedStrategy<Case> {
+    bx((0u8..4, any::<u64>(), 2usize..=4, 6usize..14, 0usize..6, 1200u32..1800, any::<bool>()).prop_map(|(kind, seed, chains, n_collect, n_discard, pace_ms, f32)| Case {
+        kind,
+        seed,
+        other_seed: seed,
+        chains,
+        n_collect,
+        n_discard,
+        pools: vec![],
+        companions: 0,
+        progress: true,
+        spin: 0,
+        proposal_seeded: true,
+        f32,
+        wide: 0,
+        pace_ms,
+    }))
+}
+
+fn spec_of(c: &Case) -> Spec {
+    if c.wide > 0 {
+        Spec::StudentT { dim: c.wide, nu: R(5.0), scale: R(1.0) }
+    } else {
+        gauss_spec()
+    }
+}
+
+fn start_of(c: &Case, chain: usize) -> Vec<f64> {
+    let dim = if c.wide > 0 { c.wide } else { 2 };
+    (0..dim).map(|k| if k % 2 == 0 { 0.3 * chain as f64 - 0.5 } else { 1.0 - 0.2 * chain as f64 }).collect()
 }
 
 fn gauss_spec() -> Spec {
@@ -120,8 +170,12 @@ fn gauss_spec() -> Spec {
 /// builds the sampler from scratch with `seed` and returns the bits of what `run` returns
 fn run_once(c: &Case, seed: u64, pool: usize, progress: bool) -> Result<Vec<u64>, Fail> {
     let tp = rayon::ThreadPoolBuilder::new().num_threads(pool).build().map_err(|e| Fail::new("harness", format!("pool: {e}")))?;
-    let inits: Vec<Vec<f64>> = (0..c.chains).map(|i| vec![0.3 * i as f64 - 0.5, 1.0 - 0.2 * i as f64]).collect();
+    let inits: Vec<Vec<f64>> = (0..c.chains).map(|i| start_of(c, i)).collect();
     let (nc, nd) = (c.n_collect, c.n_discard);
+    // pacing: only the progress-reporting run sleeps (the values do not depend on it)
+    let steps = (nc + nd).max(1) as u32;
+    let evals_per_step = [2u32, 1, 6, 10][c.kind as usize];
+    let sleep_us = if progress && c.pace_ms > 0 { c.pace_ms * 1000 / (steps * evals_per_step) } else { 0 };
     let what = format!("{} (seed {seed}, {} chains, pool {pool}, progress {progress})", ["MH", "Gibbs", "HMC", "NUTS"][c.kind as usize], c.chains);
     let r = no_panic(|| -> Result<Vec<u64>, String> {
         tp.install(|| match c.kind {
@@ -132,6 +186,7 @@ fn run_once(c: &Case, seed: u64, pool: usize, progress: bool) -> Result<Vec<u64>
                         cov: arr2(&[[4.0, 2.0], [2.0, 3.0]]),
                     },
                     spin: c.spin,
+                    sleep_us,
                 };
                 // an unseeded proposal: its generator state comes from the OS; `seed` must make
                 // the sampler reproducible all the same
@@ -148,6 +203,7 @@ fn run_once(c: &Case, seed: u64, pool: usize, progress: bool) -> Result<Vec<u64>
                     SeededConditional {
                         rng: SmallRng::seed_from_u64(seed ^ 0x77),
                         spin: c.spin,
+                        sleep_us,
                     },
                     inits.clone(),
                 )
@@ -158,17 +214,17 @@ fn run_once(c: &Case, seed: u64, pool: usize, progress: bool) -> Result<Vec<u64>
             2 => {
                 if c.f32 {
                     let init32: Vec<Vec<f32>> = inits.iter().map(|r| r.iter().map(|v| *v as f32).collect()).collect();
-                    let mut s = HMC::<f32, B32, HTarget>::new(HTarget::new(gauss_spec()), init32, 0.3, 4).set_seed(seed);
+                    let mut s = HMC::<f32, B32, HTarget>::new(HTarget::new(spec_of(c)).with_sleep(sleep_us), init32, 0.3, 4).set_seed(seed);
                     let t = if progress { s.run_progress(nc, nd).map_err(|e| e.to_string())?.0 } else { s.run(nc, nd) };
                     Ok(to_vec(&t).iter().map(|v| v.to_bits()).collect())
                 } else {
-                    let mut s = HMC::<f64, B64, HTarget>::new(HTarget::new(gauss_spec()), inits.clone(), 0.3, 4).set_seed(seed);
+                    let mut s = HMC::<f64, B64, HTarget>::new(HTarget::new(spec_of(c)).with_sleep(sleep_us), inits.clone(), 0.3, 4).set_seed(seed);
                     let t = if progress { s.run_progress(nc, nd).map_err(|e| e.to_string())?.0 } else { s.run(nc, nd) };
                     Ok(to_vec(&t).iter().map(|v| v.to_bits()).collect())
                 }
             }
             _ => {
-                let target = HTarget::with_budget(gauss_spec(), 200_000);
+                let target = HTarget::with_budget(spec_of(c), 200_000).with_sleep(sleep_us);
                 if c.f32 {
                     let init32: Vec<Vec<f32>> = inits.iter().map(|r| r.iter().map(|v| *v as f32).collect()).collect();
                     let mut s = NUTS::<f32, B32, HTarget>::new(target, init32, 0.8).set_seed(seed);
@@ -229,7 +285,9 @@ fn companions(k: usize, stop: Arc<AtomicBool>) -> Vec<std::thread::JoinHandle<()
 
 fn check(c: &Case, cov: &mut Cov) -> CheckResult {
     let progress = c.progress;
-    let base = run_once(c, c.seed, 1, progress)?;
+    let dim = if c.wide > 0 { c.wide } else { 2 };
+    // (paced runs: the chains run side by side)
+    let base = run_once(c, c.seed, if c.pace_ms > 0 { c.chains } else { 1 }, progress)?;
     ensure!(!base.is_empty(), "harness", "empty output");
     let stop = Arc::new(AtomicBool::new(false));
     let comp = companions(c.companions, stop.clone());
@@ -274,7 +332,6 @@ fn check(c: &Case, cov: &mut Cov) -> CheckResult {
     result?;
     // ... and regardless of whether progress reporting is used (NUTS: shifted by its one-draw offset)
     if progress {
-        let dim = 2;
         if c.kind != 3 {
             let plain = run_once(c, c.seed, 1, false)?;
             ensure!(
@@ -307,14 +364,13 @@ fn check(c: &Case, cov: &mut Cov) -> CheckResult {
         let base_plain = if progress { run_once(c, c.seed, 1, false)? } else { base.clone() };
         // (if no chain ever left its start state, i.e. every transition was rejected, two seeds
         // legitimately give the same output; a moved chain cannot repeat under another seed)
-        let dim = 2;
         let per_chain = base_plain.len() / c.chains;
         let moved = (0..c.chains).any(|ch| {
             let rows = &base_plain[ch * per_chain..(ch + 1) * per_chain];
             rows.chunks(dim).any(|r| r != &rows[..dim]) || {
-                let start = [(0.3 * ch as f64 - 0.5), (1.0 - 0.2 * ch as f64)];
-                let s32 = [(start[0] as f32) as f64, (start[1] as f32) as f64];
-                let r0 = [f64::from_bits(rows[0]), f64::from_bits(rows[1])];
+                let start = start_of(c, ch);
+                let s32: Vec<f64> = start.iter().map(|v| (*v as f32) as f64).collect();
+                let r0: Vec<f64> = rows[..dim].iter().map(|b| f64::from_bits(*b)).collect();
                 r0 != start && r0 != s32
             }
         });
@@ -340,6 +396,13 @@ fn check(c: &Case, cov: &mut Cov) -> CheckResult {
     if c.companions > 0 {
         cov.class("with-companions");
     }
+    if c.wide > 0 {
+        cov.class("wide-target(dim>=256)");
+    }
+    if c.pace_ms > 0 {
+        cov.class("run-outlasts-progress-timers");
+        cov.nontrivial(&("paced", c.kind, c.seed, c.chains, c.n_collect, c.n_discard));
+    }
     if c.chains >= 2 && (c.pools.iter().any(|p| *p != 1) || c.companions > 0) {
         cov.nontrivial(&(c.kind, c.seed, c.chains, c.n_collect, c.n_discard, c.pools.clone(), c.companions, progress));
     }
@@ -357,4 +420,5 @@ pub fn run(ctx: &mut Ctx) {
     ctx.set_case_timeout(120.0);
     let t = ctx.tier;
     ctx.section("reproducible", "bitwise equality of all repetitions of one configuration; different seeds differ; no panic for any u64 seed", t.pick(480, 20_000), 8, strategy, check);
+    ctx.section("paced-progress", "run_progress of a run paced to outlast the library's once-per-second / 250 ms progress timers returns bitwise the draws of run", t.pick(16, 320), 8, paced_strategy, check);
 }
